@@ -331,12 +331,16 @@ def gen_c09(tier, seed):
     rng = random.Random(seed * 1000003 + 9)
     cases = []; n = 0
     q = tier == "quick"
-    lays = [l for l in G.LAYOUTS if l[2]] if not q else [G.CORE_LAYOUT, (1, 1, 1), (12, 4, 1), (160, 32, 1), (0, 1, 1)]
+    # element types without drop glue have an observable `Clone` too (clone events, fresh identities)
+    lays = G.LAYOUTS if not q else [G.CORE_LAYOUT, (1, 1, 1), (12, 4, 1), (160, 32, 1), (0, 1, 1), (8, 8, 0), (2, 1, 0), (24, 8, 0)]
     for layout in lays:
         for L in ([1, 3] if q else [1, 2, 3, 4]):
             ops = []
             for i in range(L):
                 for d in (1, 2, 3):
+                    # consumption by downcast: right type (k times), wrong type
+                    ops += [["lazydc 0 %d %d 0" % (i, d)] * k for k in (1, 2)]
+                    ops += [["lazydc 0 %d %d 1" % (i, d), "lazydc 0 %d %d 0" % (i, d)]]
                     ops += [["push 1 l0.%d.%d" % (i, d)] * k for k in (1, 2, 3)]
                     ops += [["insert 1 %d l0.%d.%d" % (j, i, d)] for j in (0, 1, 2)]
                     ops += [["splice 1 i0 e1 e l0.%d.%d,w0,l0.%d.%d +0 - drop" % (i, d, (i + 1) % L, d)]]
@@ -346,6 +350,7 @@ def gen_c09(tier, seed):
                 ops.append(["drain 0 u u e F:lazy1.%d,B:lazy1.%d drop" % (k, k)])
                 ops.append(["drain 0 i0 e1 e F:lazy1.%d drop" % k])
             ops.append(["get 0 0", "at 0 0", "iter 0 FF"])          # creating/dropping references clones nothing
+            ops.append(["lazydc 0 %d 1 0" % L])                       # out of range: `at` panics, nothing cloned
             for seq in ops:
                 c = G.Case("lz%d" % n, layout); n += 1
                 v0 = c.new(0, rng.choice(["heap", "reloc", "stack:512"]), "clone"); v1 = c.new(0, "heap", "clone")
@@ -357,7 +362,7 @@ def gen_c09(tier, seed):
 
 PROPS["C09"] = {"gen": gen_c09, "proj": {}, "kinds": SEM | {"clone-accounting", "drop-accounting"} | OWN,
     "rule": "all cloneable source kinds (element reference, removal handle, drained element) x consumption kinds (push, insert, "
-            "splice item) x chain depth 1..3 x consumptions 0..3, from every vector state; clone lineage: each consumption is "
+            "splice item, downcast) x chain depth 1..3 x consumptions 0..3, from every vector state, element types with and without drop glue; clone lineage: each consumption is "
             "exactly one clone of the root element, creation/drop of a lazy clone is no event",
     "design_ref": "DESIGN.md section 7, C09"}
 
